@@ -1955,10 +1955,10 @@ class UserSpaceImpl(*_user_space_impl_base):
                       is_relative):
         ref = self.own_refs[name]
         self.on_del_ref(name)
-        self.on_create_ref(name, value, is_derived, refmode)
+        newref = self.on_create_ref(name, value, is_derived, refmode)
         self.model.clear_attr_referrers(ref)
         self.change_dynsub_refs(name)
-        return ref
+        return newref
 
     def on_create_ref(self, name, value, is_derived, refmode):
         if name in self.model.global_refs:
